@@ -206,6 +206,8 @@ def canon(x, kind='plain', depth=0):
         return ('iter',) + tuple(canon(e, 'plain', depth + 1) for e in itertools.islice(x, 50))
     if isinstance(x, zoo.CountLen):
         return ('CountLen', tuple(x.items))
+    if type(x).__module__.split('.')[0] in ('decimal', 'numpy', 'fractions'):
+        return (type(x).__name__, repr(x))        # value types with an address-free repr
     return ('obj', type(x).__name__)
 
 
@@ -621,7 +623,7 @@ def _check(run, ins, tmp):
         try:
             import numpy  # noqa
         except Exception:
-            bases.remove('numpy_fn')
+            bases = [b for b in bases if b != 'numpy_fn' and not b.startswith('builtin:numpy.')]
         try:
             import wrapt  # noqa
         except Exception:
@@ -1140,7 +1142,7 @@ zoo.Built.base_logs_tag = _built_logs_tag
 
 # ------------------------------------------------------------------------------------------------ histories
 
-HIST_SINGLES = [('fn', 0), ('fn', 1), ('fn', 3), ('fn', 6), ('lambda', 0), ('bound', 0), ('bound', 3), ('classm', 0), ('callobj', 0),
+HIST_SINGLES = [('bound_falsy_bool', 0), ('classm_falsy', 1), ('builtin:decimal.ctx.abs', 0), ('fn', 0), ('fn', 1), ('fn', 3), ('fn', 6), ('lambda', 0), ('bound', 0), ('bound', 3), ('classm', 0), ('callobj', 0),
                 ('class_meta', 0), ('dnc', 0), ('fn_mod:malt.c13fake', 0), ('genfn', 0), ('forelse', 0), ('forelse', 1), ('nosource', 0),
                 ('callobj_unhash_fail', 0), ('lru', 0), ('execfn', 0), ('builtin:len', 0), ('class_user', 0), ('bound_testcase', 0),
                 ('wrapt_fn', 0), ('bound_sub_inherit:malt.c13fake', 0)]
